@@ -43,6 +43,8 @@ func hookBytes(class, h string) ([]byte, bool) {
 		return []byte(sb.String()), true
 	case "user":
 		return []byte("#!/bin/sh\necho this is the user's own " + h + " hook\nexit 0\n"), true
+	case "useroff":
+		return []byte("#!/bin/sh\necho the user's own " + h + " hook, switched off for now with chmod -x\nexit 0\n"), true
 	case "userlfs":
 		return []byte("#!/bin/sh\necho user step before lfs\ngit lfs " + h + " \"$@\"\necho user step after lfs\n"), true
 	case "lfspadtail":
@@ -133,7 +135,11 @@ func replayInstall(c *core.Ctx, lfsBin string, b *installBehaviour, idx int) (*c
 			continue
 		}
 		if by, ok := hookBytes(b.Hook0[h], h); ok {
-			if err := os.WriteFile(filepath.Join(hooksDir, h), by, 0o755); err != nil {
+			mode := os.FileMode(0o755)
+			if b.Hook0[h] == "useroff" {
+				mode = 0o644
+			}
+			if err := os.WriteFile(filepath.Join(hooksDir, h), by, mode); err != nil {
 				return nil, err
 			}
 		}
@@ -178,8 +184,11 @@ func replayInstall(c *core.Ctx, lfsBin string, b *installBehaviour, idx int) (*c
 		if err != nil {
 			return "absent", nil
 		}
-		for _, cl := range []string{"empty", "current", "old", "indented", "user", "userlfs", "lfspadtail"} {
+		for _, cl := range []string{"empty", "current", "old", "indented", "user", "userlfs", "lfspadtail", "useroff"} {
 			if want, _ := hookBytes(cl, h); string(want) == string(by) {
+				if st, err := os.Stat(filepath.Join(hooksDir, h)); cl == "useroff" && err == nil && st.Mode()&0o111 != 0 {
+					return "other", by // the user's bytes, but switched on behind the user's back
+				}
 				return cl, by
 			}
 		}
@@ -265,7 +274,7 @@ func replayInstall(c *core.Ctx, lfsBin string, b *installBehaviour, idx int) (*c
 		}
 		if !s.Force {
 			for _, h := range hooks {
-				if (prevH[h] == "user" || prevH[h] == "userlfs" || prevH[h] == "lfspadtail" || prevH[h] == "userlink") && curH[h] != prevH[h] {
+				if (prevH[h] == "user" || prevH[h] == "userlfs" || prevH[h] == "lfspadtail" || prevH[h] == "userlink" || prevH[h] == "useroff") && curH[h] != prevH[h] {
 					v := mk("user-hook-preserved", fmt.Sprintf("the user's %s hook (%s) was overwritten or deleted (now %s)", h, prevH[h], curH[h]))
 					v.Fields["hook_class"] = prevH[h]
 					return v, nil
